@@ -51,6 +51,7 @@ type OpSpec struct {
 	Silent bool   `json:"silent,omitempty"`
 	TZ     bool   `json:"tz,omitempty"`   // exec.WithTZ
 	Zone   string `json:"zone,omitempty"` // "" (no zone in ctx), "UTC", "+05:30", "America/New_York", ...
+	Via     string `json:"via,omitempty"` // "": the shared *Path; "new": path.New(shared.AST), another Path over the same AST; "exec": the exec package functions on the shared *ast.AST
 	TZDerive string `json:"tzderive,omitempty"` // derive the call's zone context from the shared base context of THIS zone (a per-request zone over an app-wide default)
 	TZOuter bool  `json:"tzouter,omitempty"` // zone carried by a private ContextWithTZ wrapper around the call's context instead of by the scenario's shared base context
 	Ctx    string `json:"ctx,omitempty"`  // "" = stub; "cancel", "deadline", "parent", "cause"
@@ -160,6 +161,11 @@ func (s *Scenario) Validate() error {
 				if o.Vars < -1 || o.Vars >= len(s.Vars) || o.Vars2 < 0 || o.Vars2 > len(s.Vars) {
 					return fmt.Errorf("scenario: %s: bad vars index", where)
 				}
+			}
+			switch o.Via {
+			case "", "new", "exec":
+			default:
+				return fmt.Errorf("scenario: %s: bad via %q", where, o.Via)
 			}
 			switch o.Ctx {
 			case "", "cancel", "deadline", "parent", "cause", "farcancel":
